@@ -10,6 +10,7 @@
 package main
 
 import (
+	"context"
 	"fmt"
 	"strings"
 	"time"
@@ -26,123 +27,328 @@ import (
 
 // emptying modes: whole blocks end up without a single object for the consumer
 const (
-	emptyNone     = 0
-	emptyByFilter = 1 // the filter callbacks reject every element of the blocks with an odd number
-	emptyBySkip   = 2 // SkipWays: every way block (block 1, 4, ...) is skipped without decoding
-	variedParams  = 3 // nothing emptied: the first two blocks state block parameters, the later ones omit them
-	bigFirstBlock = 4 // the first block holds 8001 dense nodes: more than any fixed per-block buffer size in the decoder
+	emptyNone      = 0
+	emptyByFilter  = 1 // the filter callbacks reject every element of the blocks with an odd number
+	emptyBySkip    = 2 // SkipWays: every way block (block 1, 4, ...) is skipped without decoding
+	variedParams   = 3 // nothing emptied: the first two blocks state block parameters, the later ones omit them
+	bigFirstBlock  = 4 // the first block holds 8001 dense nodes: more than any fixed per-block buffer size in the decoder
+	emptyBySkipNR  = 5 // SkipNodes + SkipRelations: only the way blocks are left, two blocks in a row are empty for the consumer
+	bigLastBlock   = 6 // the last dense block (block 3 of 4) holds 8001 nodes
+	fullFirstBlock = 7 // the first block holds exactly 8000 dense nodes (the decoder's initial result capacity)
 )
+
+var emptyNames = []string{"", " odd-blocks-rejected-by-filter", " way-blocks-skipped", " block-params-come-and-go", " first-block-of-8001-nodes", " node-and-relation-blocks-skipped", " last-dense-block-of-8001-nodes", " first-block-of-8000-nodes"}
+
+// call sequences of the consumer
+const (
+	callsStd       = 0 // Header, Scan to the end, Err, Close
+	callsScanFirst = 1 // no Header call before the first Scan (Scan starts the pipeline); Header after the end
+	callsRepeat    = 2 // every call a second time: Header twice before and once after each object, two more Scans after the end, Err and Close twice
+)
+
+var callsNames = []string{"", " scan-without-header-call", " every-call-twice"}
+
+// contexts handed to osmpbf.New
+const (
+	ctxCancellable = 0 // a cancellable context that nobody cancels during the scan
+	ctxNil         = 1 // nil
+	ctxBackground  = 2 // context.Background()
+	ctxChild       = 3 // the child of a cancellable parent context
+)
+
+var ctxNames = []string{"", " nil-context", " background-context", " child-context"}
+
+// a second scanner in the same process
+const (
+	twinNone       = 0
+	twinSequential = 1 // after the first scan was closed, a second scanner (same context) scans a different file
+	twinConcurrent = 2 // a second thread scans a different file with its own scanner under the same context at the same time
+)
+
+var twinNames = []string{"", " then-a-second-scan", " two-scans-at-once"}
+
+// variant holds the scenario dimensions added by the boundary audit; the zero
+// value is the original scenario.
+type variant struct {
+	shape, reader, calls, ctx, twin int
+}
 
 func pipeline(n, b, bound int, filters, header bool) vexplore.Scenario {
 	return pipelineE(n, b, bound, filters, header, emptyNone)
 }
 
 func pipelineE(n, b, bound int, filters, header bool, empty int) vexplore.Scenario {
-	name := fmt.Sprintf("pipeline procs=%d blocks=%d filters=%v", n, b, filters)
-	if empty != emptyNone {
-		name += []string{"", " odd-blocks-rejected-by-filter", " way-blocks-skipped", " block-params-come-and-go", " first-block-of-8001-nodes"}[empty]
+	return pipelineV(n, b, bound, filters, header, empty, variant{})
+}
+
+// run is set by main: per-scenario execution counters go to the evidence.
+var run *kit.Run
+
+// scanState is what one consumer observed of one scanner.
+type scanState struct {
+	col              pbfscen.Collected
+	scanErr, hdrErr  error
+	order            []string
+	finished, closed bool
+}
+
+// take records the next returned object; the consumer reads it (race tracker)
+// and compares it with the expected object at once.
+func take(st *scanState, o osm.Object, want []osm.Object) {
+	switch x := o.(type) {
+	case *osm.Node:
+		vsched.R(x)
+	case *osm.Way:
+		vsched.R(x)
+	case *osm.Relation:
+		vsched.R(x)
 	}
+	st.col.Take(o, want)
+}
+
+func pipelineV(n, b, bound int, filters, header bool, empty int, v variant) vexplore.Scenario {
+	name := fmt.Sprintf("pipeline procs=%d blocks=%d filters=%v", n, b, filters)
+	name += emptyNames[empty]
 	// block of an element id (pbfscen.File: ids are 100*(block+1)+position)
 	keepID := func(id int64) bool { return empty != emptyByFilter || (id/100-1)%2 == 0 }
 	if !header {
 		// a scan resumed in the middle of a file: the stream starts with a data block
 		name += " no-header"
 	}
-	file := pbfscen.File(b, header)
-	if empty == variedParams {
-		file = pbfscen.FileVaried(b, header)
-	}
-	if empty == bigFirstBlock {
-		d := file.Blocks[0].Groups[0].Dense
-		for i := 0; i < 7999; i++ {
-			d.Nodes = append(d.Nodes, pbfgen.DenseNode(int64(1000+i), int64(i%11)))
+	name += shapeNames[v.shape] + readerNames[v.reader] + callsNames[v.calls] + ctxNames[v.ctx] + twinNames[v.twin]
+	// files and expected sequences are built on first use in the process that
+	// runs the scenario (every worker process holds the whole scenario list)
+	var enc, enc2 *pbfgen.Encoded
+	var want, want2 []osm.Object
+	prepared := false
+	prepare := func() {
+		if prepared {
+			return
+		}
+		prepared = true
+		file := shapedFile(v.shape, b, header)
+		if empty == variedParams {
+			file = pbfscen.FileVaried(b, header)
+		}
+		if empty == bigFirstBlock || empty == fullFirstBlock || empty == bigLastBlock {
+			at, more := 0, 7999
+			if empty == fullFirstBlock {
+				more = 7998
+			}
+			if empty == bigLastBlock {
+				at = (b - 1) / 3 * 3
+			}
+			d := file.Blocks[at].Groups[0].Dense
+			for i := 0; i < more; i++ {
+				d.Nodes = append(d.Nodes, pbfgen.DenseNode(int64(1000+i), int64(i%11)))
+			}
+		}
+		wantOf := func(f *pbfgen.File, plain bool) []osm.Object {
+			var want []osm.Object
+			for _, o := range f.Expected() {
+				if plain {
+					want = append(want, o)
+					continue
+				}
+				switch o.(type) {
+				case *osm.Node:
+					if empty == emptyBySkipNR {
+						continue
+					}
+				case *osm.Way:
+					if empty == emptyBySkip {
+						continue
+					}
+				case *osm.Relation:
+					if empty == emptyBySkipNR {
+						continue
+					}
+				}
+				if keepID(o.ObjectID().Ref()) {
+					want = append(want, o)
+				}
+			}
+			return want
+		}
+		enc, want = file.Encode(), wantOf(file, false)
+		// the second scanner: one decoder more, no filters and no skip flags (what one
+		// scanner was told must not leak into the other); its file: one block more,
+		// other block parameters, other user names and uids - an object that crossed
+		// over cannot pass for its own
+		if v.twin != twinNone {
+			file2 := pbfscen.FileVaried(b+1, header)
+			enc2, want2 = file2.Encode(), wantOf(file2, true)
 		}
 	}
-	enc := file.Encode()
-	var want []osm.Object
-	for _, o := range file.Expected() {
-		if w, isWay := o.(*osm.Way); empty == emptyBySkip && isWay {
-			_ = w
-			continue
-		}
-		if keepID(o.ObjectID().Ref()) {
-			want = append(want, o)
-		}
-	}
-	return vexplore.Scenario{Name: name, Family: name, Bound: bound, RacesAreFindings: true, MaxSteps: 100000,
+	return vexplore.Scenario{Name: name, Family: name, Bound: bound, RacesAreFindings: true, MaxSteps: 100000 + 400*b,
 		New: func() (func(), func(*vsched.Outcome) ([]vexplore.Finding, string, bool)) {
-			var col pbfscen.Collected
-			var scanErr, hdrErr error
-			var order []string
-			finished, closed := false, false
-			main := func() {
-				ctx, cancel := vsched.WithCancel(nil)
-				defer cancel()
-				rd := &pbfscen.Reader{Data: enc.Data, BlockOnly: true}
-				s := osmpbf.New(ctx, rd, n)
-				s.SkipWays = empty == emptyBySkip
-				if filters {
-					// a slow user callback inside the decoders
+			prepare()
+			var st [2]scanState
+			scan := func(st *scanState, ctx context.Context, data []byte, want []osm.Object, second bool) {
+				procs := n
+				if second {
+					procs = n + 1
+				}
+				s := osmpbf.New(ctx, newReader(v.reader, data), procs)
+				if !second {
+					s.SkipWays = empty == emptyBySkip
+					s.SkipNodes, s.SkipRelations = empty == emptyBySkipNR, empty == emptyBySkipNR
+				}
+				if filters && !second {
+					// a slow user callback inside the decoders. vsched.W tells the race
+					// tracker that this (decoder) thread has just written the element; the
+					// consumer's vsched.R in take must be ordered after it by the pipeline's
+					// own synchronisation.
 					s.FilterNode = func(nd *osm.Node) bool {
 						vsched.Yield("filter")
-						order = append(order, fmt.Sprintf("n%d@T%d", nd.ID, vsched.ThreadID()))
+						vsched.W(nd)
+						st.order = append(st.order, fmt.Sprintf("n%d@T%d", nd.ID, vsched.ThreadID()))
 						return keepID(int64(nd.ID))
 					}
 					s.FilterWay = func(w *osm.Way) bool {
 						vsched.Yield("filter")
-						order = append(order, fmt.Sprintf("w%d@T%d", w.ID, vsched.ThreadID()))
+						vsched.W(w)
+						st.order = append(st.order, fmt.Sprintf("w%d@T%d", w.ID, vsched.ThreadID()))
 						return keepID(int64(w.ID))
 					}
 					s.FilterRelation = func(rl *osm.Relation) bool {
 						vsched.Yield("filter")
-						order = append(order, fmt.Sprintf("r%d@T%d", rl.ID, vsched.ThreadID()))
+						vsched.W(rl)
+						st.order = append(st.order, fmt.Sprintf("r%d@T%d", rl.ID, vsched.ThreadID()))
 						return keepID(int64(rl.ID))
 					}
 				}
-				_, hdrErr = s.Header()
-				for s.Scan() {
-					col.Take(s.Object(), want)
+				// The results of Header() are not C02's to judge beyond "no error on a
+				// valid file"; the extra calls are there because they must not disturb
+				// the object sequence. An extra object after the end or after Close is
+				// an object "beyond the expected" for Judge.
+				if v.calls != callsScanFirst {
+					_, st.hdrErr = s.Header()
 				}
-				scanErr = s.Err()
-				finished = true
+				if v.calls == callsRepeat {
+					s.Header()
+				}
+				for s.Scan() {
+					take(st, s.Object(), want)
+					if v.calls == callsRepeat {
+						if _, err := s.Header(); err != nil && st.hdrErr == nil {
+							st.hdrErr = err
+						}
+					}
+				}
+				st.scanErr = s.Err()
+				if v.calls == callsRepeat {
+					// the scan is over: it stays over, and Err stays what it was
+					for k := 0; k < 2; k++ {
+						if s.Scan() {
+							take(st, s.Object(), want)
+						}
+						if err := s.Err(); err != nil && st.scanErr == nil {
+							st.scanErr = fmt.Errorf("%v (after %d more Scan calls, nil at the end of the scan)", err, k+1)
+						}
+					}
+				}
+				if v.calls != callsStd {
+					// not judged: after a complete scan the library returns (header, io.EOF)
+					// here; C02's statement says nothing about Header after the end
+					s.Header()
+				}
+				st.finished = true
 				s.Close()
-				closed = true
+				if v.calls == callsRepeat {
+					s.Close()
+					if s.Scan() {
+						take(st, s.Object(), want)
+					}
+				}
+				st.closed = true
+			}
+			main := func() {
+				var ctx context.Context
+				switch v.ctx {
+				case ctxCancellable:
+					c, cancel := vsched.WithCancel(nil)
+					defer cancel()
+					ctx = c
+				case ctxNil:
+				case ctxBackground:
+					ctx = context.Background()
+				case ctxChild:
+					p, pcancel := vsched.WithCancel(nil)
+					defer pcancel()
+					c, cancel := vsched.WithCancel(p)
+					defer cancel()
+					ctx = c
+				}
+				switch v.twin {
+				case twinNone:
+					scan(&st[0], ctx, enc.Data, want, false)
+				case twinSequential:
+					scan(&st[0], ctx, enc.Data, want, false)
+					scan(&st[1], ctx, enc2.Data, want2, true)
+				case twinConcurrent:
+					done := vsched.MakeChan[struct{}](1)
+					vsched.GoNamed("second-consumer", func() {
+						scan(&st[1], ctx, enc2.Data, want2, true)
+						done.Send(struct{}{})
+					})
+					scan(&st[0], ctx, enc.Data, want, false)
+					done.Recv()
+				}
 			}
 			check := func(o *vsched.Outcome) ([]vexplore.Finding, string, bool) {
+				if run != nil {
+					run.Add("oracle_runs["+name+"]", 1)
+				}
 				var fs []vexplore.Finding
-				tag := strings.Join(order, " ")
+				tag := strings.Join(st[0].order, " ")
+				if v.twin != twinNone {
+					tag += " | " + strings.Join(st[1].order, " ")
+				}
 				// non-vacuous: some later block was decoded before an earlier one
 				nonvac := false
-				last := int64(0)
-				for _, ev := range order {
-					var id int64
-					fmt.Sscanf(ev[1:], "%d", &id)
-					if id/100 < last/100 {
-						nonvac = true
+				for k := range st {
+					last := int64(0)
+					for _, ev := range st[k].order {
+						var id int64
+						fmt.Sscanf(ev[1:], "%d", &id)
+						if id/100 < last/100 {
+							nonvac = true
+						}
+						last = id
 					}
-					last = id
 				}
 				if !filters {
 					nonvac = o.Threads > 3
 				}
+				scans := 1
+				if v.twin != twinNone {
+					scans = 2
+				}
 				if o.Kind != "ok" {
 					where := "scanning"
-					if finished {
+					if st[0].finished && (scans == 1 || st[1].finished) {
 						where = "in or after Close"
 					}
 					return []vexplore.Finding{{Key: "pipeline/" + o.Kind, Msg: fmt.Sprintf("execution ended in %s while %s: %s", o.Kind, where, o.Detail)}}, tag, nonvac
 				}
-				if hdrErr != nil {
-					fs = append(fs, vexplore.Finding{Key: "pipeline/header-error", Msg: hdrErr.Error()})
-				}
-				if k, m := col.Judge(want, true); k != "" {
-					fs = append(fs, vexplore.Finding{Key: "pipeline/" + k, Msg: m})
-				}
-				if scanErr != nil {
-					fs = append(fs, vexplore.Finding{Key: "pipeline/error-on-valid-file", Msg: fmt.Sprintf("Err() = %v", scanErr)})
-				}
-				if !closed {
-					fs = append(fs, vexplore.Finding{Key: "pipeline/close-did-not-return", Msg: "Close did not return"})
+				for i := 0; i < scans; i++ {
+					s, w, who := &st[i], want, ""
+					if i == 1 {
+						w, who = want2, "second scanner: "
+					}
+					if s.hdrErr != nil {
+						fs = append(fs, vexplore.Finding{Key: "pipeline/header-error", Msg: who + s.hdrErr.Error()})
+					}
+					if k, m := s.col.Judge(w, true); k != "" {
+						fs = append(fs, vexplore.Finding{Key: "pipeline/" + k, Msg: who + m})
+					}
+					if s.scanErr != nil {
+						fs = append(fs, vexplore.Finding{Key: "pipeline/error-on-valid-file", Msg: fmt.Sprintf("%sErr() = %v", who, s.scanErr)})
+					}
+					if !s.closed {
+						fs = append(fs, vexplore.Finding{Key: "pipeline/close-did-not-return", Msg: who + "Close did not return"})
+					}
 				}
 				return fs, tag, nonvac
 			}
@@ -152,11 +358,14 @@ func pipelineE(n, b, bound int, filters, header bool, empty int) vexplore.Scenar
 
 func main() {
 	kit.Main("C02", "model_checking", func(r *kit.Run) {
-		r.Rule("scenario pipeline(procs, blocks): header + data blocks of two objects each (dense / ways / relations), reader yields at every block, filters yield per element, consumer scans to the end; variants: no header (resumed stream), no filters, filters rejecting every element of the odd blocks, SkipWays (whole blocks empty for the consumer); " +
+		run = r
+		r.Rule("scenario pipeline(procs, blocks): header + data blocks of two objects each (dense / ways / relations), reader yields at every block, filters yield per element, consumer scans to the end; variants: no header (resumed stream), no filters, filters rejecting every element of the odd blocks, SkipWays / SkipNodes+SkipRelations (whole blocks empty for the consumer), " +
+			"blocks of 1..6 objects, blocks without objects, raw / stored / zlib blobs and multi-group blocks, 0..2, 24..70 and 300 blocks, readers yielding at every read or stuttering (short reads, empty reads, data with EOF), Scan without Header, every call twice, nil / background / child contexts, a second scanner after or next to the first; " +
 			"every schedule with <= D deviations (delay or alternative select case) from the priority scheduler, both priority configurations; " +
 			"non-vacuous = a later block's element was decoded before an earlier block's (filters on) ; distinct_nontrivial = distinct complete operation sequences among non-vacuous executions; " +
-			"states = execution-tree nodes, transitions = visible operations, every trace is an implementation trace")
+			"states = execution-tree nodes, transitions = visible operations, every trace is an implementation trace; oracle_runs[scenario] counts oracle evaluations including the determinism re-runs of the root execution")
 		r.Assume("vinst's rewrite of decode.go/scanner.go/decode_data.go preserves behaviour; sequentially consistent scheduler; races are judged on instrumented struct fields and package variables")
+		r.Assume("not judged (the property text does not decide them): decoder counts above 32, an empty stream (no header, no block), a consumer that modifies the objects it was given, input readers that fail (C06), stops before the end (C07), the content of Header() and the byte offsets (C01, C09)")
 		type cfg struct {
 			n, b, d  int
 			nofilter bool
@@ -208,6 +417,7 @@ func main() {
 			sc.Family = sc.Name
 			scs = append(scs, sc)
 		}
+		scs = append(scs, auditScenarios(r.Quick())...)
 		e := &vexplore.Explorer{R: r, Scenarios: scs}
 		e.Run(budget)
 	})
